@@ -513,6 +513,11 @@ def gen_response(rng, head, big=False):
     elif framing in ("204", "304"):
         if rng.random() < 0.4:
             hdrs.append(b"Content-Length: 7")          # no body all the same
+    if (head or framing in ("204", "304")) and rng.random() < 0.4:
+        # a bodiless response (HEAD / 204 / 304) stays bodiless whatever framing headers it carries: RFC 9112 §6.3 rule 1
+        # comes before the Transfer-Encoding rule (seeded change C23-3 evaluated Transfer-Encoding first)
+        hdrs.append(_mixcase(rng, b"Transfer-Encoding") + b": " + _mixcase(rng, b"chunked"))
+        cls.append("nobody+te")
     if rng.random() < 0.25:
         hdrs.append(rng.choice([b"Connection: close", b"connection: close", b"Connection: Close", b"Connection: keep-alive"]))
         cls.append("conn")
@@ -666,6 +671,9 @@ def corpus():
     return [
         # witnesses of the defects of the unchanged tree (see known-findings.txt)
         c([H(b"HTTP/1.1 200 OK\r\n\r\nabc"), ["abort"], L], cls="w-abort-close-delimited"),
+        # bodiless status with framing headers (seeded change C23-3): no body, quiescent at once on a persistent connection
+        c([H(b"HTTP/1.1 304 Not Modified\r\nETag: \"x\"\r\nTransfer-Encoding: chunked\r\n\r\n"), L], persistent=True, cls="nobody-te"),
+        c([H(b"HTTP/1.1 204 No Content\r\nTransfer-Encoding: chunked\r\nContent-Length: 5\r\n\r\n"), L], cls="nobody-te-cl"),
         c([H(b"HTTP/1.1 204 No"), ["abort"], H(b"\r\n\r\n"), L], cls="w-abort-then-nobody"),
         c([["abort"], H(b"HTTP/1.1 200 OK\r\nContent-Length: 0\r\n\r\n"), L], cls="w-abort-then-cl0"),
         c([H(b"garbage\r\n"), L], asy=True, cls="w-transmitting-parse-error"),
